@@ -5,9 +5,11 @@
 
 use crate::model::*;
 
+/// All layout arithmetic saturates: a type too large for u32 gets size u32::MAX (naga rejects such
+/// types, and the generator caps array lengths so that they do not arise).
 pub fn round_up(align: u32, v: u32) -> u32 {
     debug_assert!(align > 0);
-    v.div_ceil(align) * align
+    v.div_ceil(align).saturating_mul(align)
 }
 
 #[derive(Clone, Debug, PartialEq, Eq)]
@@ -33,11 +35,11 @@ pub fn wgsl_layout(ty: &Ty, structs: &[StructDef]) -> Layout {
         }
         Ty::M { c, r, s } => {
             let col = wgsl_layout(&Ty::V(*r, *s), structs);
-            Layout { size: *c as u32 * round_up(col.align, col.size), align: col.align }
+            Layout { size: (*c as u32).saturating_mul(round_up(col.align, col.size)), align: col.align }
         }
         Ty::A(e, n) => {
             let el = wgsl_layout(e, structs);
-            Layout { size: n * round_up(el.align, el.size), align: el.align }
+            Layout { size: n.saturating_mul(round_up(el.align, el.size)), align: el.align }
         }
         Ty::RA(e) => {
             // size of a runtime array with one element (the minimum binding size); callers that need
@@ -67,7 +69,7 @@ pub fn wgsl_struct_layout(sd: &StructDef, structs: &[StructDef]) -> StructLayout
         let s = m.size_attr.unwrap_or(l.size);
         off = round_up(a, off);
         offsets.push(off);
-        off += s;
+        off = off.saturating_add(s);
         align = align.max(a);
     }
     StructLayout { size: round_up(align, off), align, offsets }
@@ -264,7 +266,7 @@ pub fn rust_type(ty: &Ty, structs: &[StructDef], repr: Repr) -> RustLeaf {
         }
         Ty::A(e, n) => {
             let el = rust_type(e, structs, repr);
-            RustLeaf { ty: format!("[{}; {}]", el.ty, n), size: el.size * n, align: el.align }
+            RustLeaf { ty: format!("[{}; {}]", el.ty, n), size: el.size.saturating_mul(*n), align: el.align }
         }
         Ty::RA(e) => {
             let el = rust_type(e, structs, repr);
@@ -303,7 +305,7 @@ pub fn rust_struct_layout(sd: &StructDef, structs: &[StructDef], repr: Repr) -> 
             padding = true;
         }
         offsets.push(o);
-        off = o + l.size;
+        off = o.saturating_add(l.size);
         align = align.max(l.align);
     }
     let size = round_up(align, off);
